@@ -204,6 +204,10 @@ pub fn small_universe() -> Universe {
     Universe { p_rules, g_rules, reqs }
 }
 
+/// rules of the second role definition use their own names: all role definitions share one
+/// role manager (known finding F3), which is C19's subject, not that of the store properties
+pub fn g2_names(r: &[String]) -> Vec<String> { r.iter().map(|x| format!("res_{}", x)).collect() }
+
 /// a concrete alphabet over the small universe (used for exhaustive enumeration)
 pub fn alphabet(u: &Universe) -> Vec<MOp> {
     let mut a = vec![];
@@ -211,7 +215,7 @@ pub fn alphabet(u: &Universe) -> Vec<MOp> {
     for r in &u.p_rules[..3] { a.push(MOp::Rm("p".into(), "p".into(), r.clone())); }
     for r in &u.g_rules[..3] { a.push(MOp::Add("g".into(), "g".into(), r.clone())); }
     for r in &u.g_rules[..2] { a.push(MOp::Rm("g".into(), "g".into(), r.clone())); }
-    a.push(MOp::Add("g".into(), "g2".into(), u.g_rules[0].clone()));
+    a.push(MOp::Add("g".into(), "g2".into(), g2_names(&u.g_rules[0])));
     a.push(MOp::Add("p".into(), "p2".into(), u.p_rules[0].clone()));
     a.push(MOp::AddM("p".into(), "p".into(), vec![u.p_rules[1].clone(), u.p_rules[4].clone()]));
     a.push(MOp::AddM("p".into(), "p".into(), vec![u.p_rules[5].clone(), u.p_rules[5].clone()])); // internal duplicate
@@ -238,7 +242,8 @@ pub fn random_op(rng: &mut Rng, u: &Universe) -> MOp {
     let pt = if rng.chance(1, 6) { "p2" } else { "p" }.to_string();
     let gt = if rng.chance(1, 6) { "g2" } else { "g" }.to_string();
     let pr = |rng: &mut Rng| u.p_rules[rng.below(u.p_rules.len())].clone();
-    let gr = |rng: &mut Rng| u.g_rules[rng.below(u.g_rules.len())].clone();
+    let is_g2 = gt == "g2";
+    let gr = |rng: &mut Rng| { let r = u.g_rules[rng.below(u.g_rules.len())].clone(); if is_g2 { g2_names(&r) } else { r } };
     match rng.below(20) {
         0..=4 => MOp::Add("p".into(), pt, pr(rng)),
         5 | 6 => MOp::Rm("p".into(), pt, pr(rng)),
@@ -260,6 +265,11 @@ pub fn random_op(rng: &mut Rng, u: &Universe) -> MOp {
         18 => if rng.chance(1, 3) { MOp::Clear } else { MOp::Add("p".into(), "p".into(), pr(rng)) },
         _ => MOp::Add("p".into(), "p9".into(), pr(rng)),
     }
+}
+
+/// fault plan that rejects every adapter call an API call makes (delete_user / delete_role make two)
+pub fn fault_plan(op: &MOp, f: &str) -> String {
+    match op { MOp::DelUser(_) | MOp::DelRole(_) => format!("{},{}", f, f), _ => f.to_string() }
 }
 
 pub fn reqs_field(reqs: &[Vec<String>]) -> String {
